@@ -458,8 +458,20 @@ def thorough_extras(verif, repo, prop, seed, use_cache, ev, r1):
                 continue
             try:
                 r = _check(verif, scratch, prop, 'quick', seed, use_cache, False, time.time(), selftest=True)
+                res = 'caught' if r['failed'] else 'MISSED'
+                if not r['failed']:
+                    # every obligation still discharges on the changed tree: the thorough tier's bounded supplement is the
+                    # only part of this check that can still report it
+                    try:
+                        from . import witness as wmod
+                        if prop in wmod.SEARCHABLE:
+                            w = wmod.search(verif, scratch, prop, {}, 'quick')
+                            if w.get('found'):
+                                res = 'caught by the bounded supplement of the thorough tier only (all proof obligations still discharge): %s' % w.get('observed')
+                    except Exception:
+                        pass
                 st.append({'change': os.path.basename(d), 'what': meta.get('summary') or meta.get('what'),
-                           'result': 'caught' if r['failed'] else 'MISSED', 'failed_obligations': r['failed'][:8]})
+                           'result': res, 'failed_obligations': r['failed'][:8]})
             except Undecided as u:
                 res = 'undecided: ' + str(u)
                 try:
